@@ -76,8 +76,11 @@ func (c *Context) SpawnChild(p Producer, name string, opts ...OptFunc) *PID {
 	}
 	proc := newProcess(c.engine, options)
 	proc.context.parentCtx = c
-	pid := c.engine.SpawnProc(proc)
-	c.children.Set(pid.ID, pid)
+	// List the child before it starts. A child that dies while starting (its
+	// receiver panics with no restart budget left) takes itself off the list
+	// in its cleanup; listing it only afterwards left a dead child behind.
+	c.children.Set(proc.PID().ID, proc.PID())
+	c.engine.SpawnProc(proc)
 
 	return proc.PID()
 }
